@@ -1,5 +1,6 @@
 import MockeryModel.Gen.Header
 import MockeryModel.Generated.HeaderFacts
+import MockeryModel.Generated.Helpers
 import MockeryLemmas.Header
 /-!
 # C17 — generated-file marker, boilerplate and build constraints are effective
@@ -18,6 +19,24 @@ theorem header_transcribed :
     Generated.matryerHeader = builtinHeader matryerMarker ∧
     Generated.readFileReturns = ["\"\", nil", "\"\", err", "string(fileBytes), nil"] ∧
     Generated.readFileLines = 7 := ⟨rfl, rfl, by decide, by decide⟩
+
+/-- **`readFile` is the translated source**: what the header model renders for `{{ index .TemplateData k | readFile }}`
+is the value of the translation of `template_funcs.ReadFile` (`Generated/Helpers.lean`, rewritten from the Go text on
+every run) on the configured path, with `os.ReadFile` returning the file's content: the empty path gives the empty
+string without touching the file system, any other path the content unchanged -/
+theorem readFile_is_the_translated_source (env : HeaderEnv) (k : String) (p : List Char) (h : env.data k = some p) :
+    Generated.Helpers.readFile [] (fun q => some (env.file q)) id p = .ok (renderItem env (.readFile k)) := by
+  cases p with
+  | nil => simp [Generated.Helpers.readFile, renderItem, h]; rfl
+  | cons c cs =>
+    have hne : ((c :: cs) == ([] : List Char)) = false := rfl
+    simp [Generated.Helpers.readFile, renderItem, h, hne]; rfl
+
+/-- an unreadable file is an error of the template call, never an empty boilerplate -/
+theorem readFile_failure_is_error (c : Char) (cs : List Char) :
+    Generated.Helpers.readFile (B := List Char) [] (fun _ => none) id (c :: cs) = .error "read" := by
+  have hne : ((c :: cs) == ([] : List Char)) = false := rfl
+  simp [Generated.Helpers.readFile, hne]; rfl
 
 /-! ### the rendered header -/
 
